@@ -250,22 +250,42 @@ theorem elimTests_found (r parent : Rule) :
         r.objectJoin.all (fun cp => cp.1 = cp.2)) := by
   simp [elimTests, ElimShape.found]
 
-/-- the repaired shape (fix commit of C07_F1 / C07_F2) is what the shared normaliser model implements -/
+/-- the shape after the first repair (fix commit of C07_F1 / C07_F2, still without the test of the section: finding C07_F5) -/
 theorem elimTests_repaired (r parent : Rule) :
     elimTests ElimShape.repaired r parent =
       (decide (r.logicalSourceValue = parent.logicalSourceValue) && decide (r.iterator = parent.iterator) &&
         r.objectJoin.all (fun cp => cp.1 = cp.2) && subjRefsAreJoinCols r parent) := by
   simp [elimTests, ElimShape.repaired, ElimShape.found, subjRefsAreJoinCols, sameSet]
 
-theorem C07_elim_repaired_is_shared (rules : List Rule) (r : Rule) :
-    eliminateSelfJoinG ElimShape.repaired rules r = eliminateSelfJoin rules r := by
+/-- the current shape (both repairs: C07_F1 / C07_F2 and C07_F5) is what the shared normaliser model implements -/
+theorem elimTests_current (r parent : Rule) :
+    elimTests ElimShape.current r parent =
+      (decide (r.sourceName = parent.sourceName) && decide (r.logicalSourceValue = parent.logicalSourceValue) &&
+        decide (r.iterator = parent.iterator) && r.objectJoin.all (fun cp => cp.1 = cp.2) && subjRefsAreJoinCols r parent) := by
+  simp [elimTests, ElimShape.current, ElimShape.repaired, ElimShape.found, subjRefsAreJoinCols, sameSet]
+
+/-- the current tests are the tests of the first repair plus the test of the section -/
+theorem elimTests_current_eq (r parent : Rule) :
+    elimTests ElimShape.current r parent = (decide (r.sourceName = parent.sourceName) && elimTests ElimShape.repaired r parent) := by
+  rw [elimTests_current, elimTests_repaired]; simp only [Bool.and_assoc]
+
+theorem C07_elim_current_is_shared (rules : List Rule) (r : Rule) :
+    eliminateSelfJoinG ElimShape.current rules r = eliminateSelfJoin rules r := by
   unfold eliminateSelfJoinG eliminateSelfJoin
   by_cases hpt : r.objectMapType = .parentTM
   · simp only [hpt, ↓reduceIte]
     cases hf : rules.find? (fun p => p.tmId = r.objectMapValue) with
     | none => rfl
-    | some parent => simp only [elimTests_repaired]
+    | some parent => simp only [elimTests_current]
   · simp only [hpt, ↓reduceIte]
+
+/-- **the tests of the section and of the logical source value imply that both rules read the same rows** (tables are keyed by
+    section and logical source value; iterators are outside the model).  Without the test of the section this fails: C07_F5. -/
+theorem C07_tests_same_table (sh : ElimShape) (h1 : sh.sameSection = true) (h2 : sh.sameSource = true) (env : Env) (r parent : Rule)
+    (ht : elimTests sh r parent = true) : env.table r = env.table parent := by
+  simp only [elimTests, h1, h2, Bool.not_true, Bool.false_or, Bool.and_eq_true, decide_eq_true_eq] at ht
+  unfold Env.table
+  rw [ht.1.1.1.1, ht.1.1.1.2]
 
 /-- the rewriting either leaves the rule alone or replaces the object map by the parent's subject map -/
 theorem C07_elim_result (sh : ElimShape) (rules : List Rule) (r parent : Rule) (hpt : r.objectMapType = .parentTM)
